@@ -94,3 +94,96 @@ func VerifH_TruncateTombstones() {
 	}
 	verifrt.Assert(before == after, "embedded values: nothing discarded")
 }
+
+// verifTxRecordV0 serializes a version-0 transaction record as performPrecommit lays it out
+// (the real txDataReader parses it back in the harness below; a wrong layout fails on the
+// unchanged tree).
+func verifTxRecordV0(id uint64, entries []*TxEntry) []byte {
+	var b []byte
+	u64 := func(v uint64) {
+		b = append(b, byte(v>>56), byte(v>>48), byte(v>>40), byte(v>>32), byte(v>>24), byte(v>>16), byte(v>>8), byte(v))
+	}
+	u64(id)
+	u64(0)                         // ts
+	u64(id - 1)                    // blTxID
+	b = append(b, make([]byte, 64)...) // blRoot, prevAlh
+	b = append(b, 0, 0)            // version 0
+	b = append(b, byte(len(entries)>>8), byte(len(entries)))
+	for _, e := range entries {
+		b = append(b, 0, 0) // no entry metadata
+		b = append(b, byte(e.kLen>>8), byte(e.kLen))
+		b = append(b, e.k[:e.kLen]...)
+		b = append(b, byte(e.vLen>>24), byte(e.vLen>>16), byte(e.vLen>>8), byte(e.vLen))
+		u64(uint64(e.vOff))
+		b = append(b, e.hVal[:]...)
+	}
+	b = append(b, make([]byte, 32)...) // alh (not checked by the offset reader)
+	return b
+}
+
+// VerifH_TruncateMultiEntry: the same tombstone safety with transactions of two entries each,
+// read through the real readTxOffsetAt / txDataReader from serialized records: both values of a
+// transaction sit in the same value log at ascending symbolic offsets (the first possibly empty);
+// truncation up to `cut` never discards, in any value log, beyond ANY value of a transaction
+// with id >= cut.
+func VerifH_TruncateMultiEntry() {
+	n, C := verifrt.Param("n"), verifrt.Param("C")
+	vlog := make([]byte, n+1)
+	o1, o2 := make([]int64, n+1), make([]int64, n+1)
+	l1 := make([]int, n+1)
+	recs := make([][]byte, n+1)
+	for i := 1; i <= n; i++ {
+		vlog[i] = verifrt.Byte("vlog")
+		verifrt.Assume(vlog[i] >= 1 && int(vlog[i]) <= C)
+		o1[i], o2[i] = verifrt.I64("o1"), verifrt.I64("o2")
+		verifrt.Assume(o1[i] >= 0 && o1[i] < o2[i] && o2[i] <= 100)
+		l1[i] = 1
+		e1 := &TxEntry{k: []byte{1}, kLen: 1, vLen: 1, vOff: encodeOffset(o1[i], vlog[i])}
+		if verifrt.Bool("firstEmpty") {
+			l1[i] = 0
+			e1.vLen, e1.vOff = 0, encodeOffset(0, vlog[i]) // as appendValuesIntoAnyVLog encodes an empty value
+		}
+		e2 := &TxEntry{k: []byte{2}, kLen: 1, vLen: 1, vOff: encodeOffset(o2[i], vlog[i])}
+		recs[i] = verifTxRecordV0(uint64(i), []*TxEntry{e1, e2})
+	}
+	cut := verifrt.U64("cut")
+	verifrt.Assume(cut >= 1 && cut <= uint64(n))
+	vlogs := make([]*verifDiscardRec, C+1)
+	for v := 1; v <= C; v++ {
+		vlogs[v] = &verifDiscardRec{id: byte(v)}
+	}
+	verifrt.Stub("(*embedded/store.ImmuStore).appendableReaderForTx", func(s *ImmuStore, txID uint64, allowPrecommitted bool) (*appendable.Reader, error) {
+		for i := 1; i <= n; i++ {
+			if uint64(i) == txID {
+				return appendable.NewReaderFrom(&verifMemApp{b: recs[i]}, 0, len(recs[i])), nil
+			}
+		}
+		return nil, ErrTxNotFound
+	})
+	verifrt.Stub("(*embedded/store.ImmuStore).fetchVLog", func(s *ImmuStore, vLogID byte) (appendable.Appendable, error) {
+		for v := 1; v <= C; v++ {
+			if byte(v) == vLogID {
+				return vlogs[v], nil
+			}
+		}
+		return nil, ErrUnexpectedError
+	})
+	verifrt.Stub("(*embedded/store.ImmuStore).releaseVLog", func(s *ImmuStore, vLogID byte) error { return nil })
+	st := &ImmuStore{logger: verifLogger{}, maxIOConcurrency: C, committedTxID: uint64(n), maxTxEntries: 8, maxKeyLen: 4}
+	err := st.TruncateUptoTx(cut)
+	verifrt.Assert(err == nil, "truncation succeeds")
+	verifrt.Reach("truncated")
+	for v := 1; v <= C; v++ {
+		verifrt.Assert(len(vlogs[v].discards) <= 1, "at most one discard per value log")
+		for _, off := range vlogs[v].discards {
+			for j := 1; j <= n; j++ {
+				if uint64(j) >= cut && vlog[j] == byte(v) {
+					if l1[j] > 0 {
+						verifrt.Assert(off <= o1[j], "discard offset does not pass the first value of a kept transaction")
+					}
+					verifrt.Assert(off <= o2[j], "discard offset does not pass the second value of a kept transaction")
+				}
+			}
+		}
+	}
+}
